@@ -87,11 +87,11 @@ Notation cx_norm := (cx_norm R radd rmul).
 Notation cx_pow := (cx_pow R r0 r1 radd rmul rsub).
 Notation cx_sum := (cx_sum R r0 radd).
 Notation dft_bin := (dft_bin R r0 r1 radd rmul rsub).
-Definition cx_sub (z w : cx) : cx := (rsub (fst z) (fst w), rsub (snd z) (snd w)).
+Notation cx_sub := (SpecDSP.cx_sub R rsub).
 Definition cx_opp (z : cx) : cx := (ropp (fst z), ropp (snd z)).
 
 Ltac cx_ring := intros; repeat match goal with z : cx |- _ => destruct z end;
-  unfold SpecDSP.cx_add, SpecDSP.cx_mul, cx_sub, cx_opp, SpecDSP.cx0, SpecDSP.cx1, SpecDSP.cx_of_real,
+  unfold SpecDSP.cx_add, SpecDSP.cx_mul, SpecDSP.cx_sub, cx_opp, SpecDSP.cx0, SpecDSP.cx1, SpecDSP.cx_of_real,
          SpecDSP.cx_conj, SpecDSP.cx_norm; cbn [fst snd]; try (f_equal; ring).
 
 Lemma cx_ring_theory : ring_theory cx0 cx1 cx_add cx_mul cx_sub cx_opp (@eq cx).
@@ -192,8 +192,7 @@ Lemma sdft_run_recurrence N coeff rho : forall xs pre st,
   rb_inv N pre (sdft_samples st) (sdft_index st) ->
   forall n, n < length xs ->
   nth n (snd (sdft_run N coeff rho st xs)) cx0 =
-  cx_mul (cx_add (cx_mul (match n with O => sdft_result st | S m => cx_mul (nth m (snd (sdft_run N coeff rho st xs)) cx0) (cx_of_real rho) end)
-                         cx1)
+  cx_mul (cx_add (match n with O => sdft_result st | S m => cx_mul (nth m (snd (sdft_run N coeff rho st xs)) cx0) (cx_of_real rho) end)
                  (cx_sub (cx_of_real (nth n xs r0)) (cago (pre ++ firstn n xs) (N - 1)))) coeff.
 Proof.
   induction xs; intros pre st I n Hn; [simpl in Hn; lia|].
@@ -201,7 +200,7 @@ Proof.
   destruct (sdft_step N coeff rho st a) as [st1 y]. cbn [fst snd] in S. destruct S as (I1 & Y & St).
   specialize (IHxs (pre ++ [a]) st1 I1). destruct (sdft_run N coeff rho st1 xs) as [st2 ys]. cbn [snd] in *.
   destruct n.
-  - cbn [nth firstn]. rewrite app_nil_r, Y. cring.
+  - cbn [nth firstn]. rewrite app_nil_r, Y. reflexivity.
   - cbn [nth firstn]. simpl in Hn. rewrite IHxs by lia. rewrite <- app_assoc. cbn [app].
     destruct n; [rewrite St; reflexivity|reflexivity].
 Qed.
@@ -341,6 +340,20 @@ Proof.
   intros Hi. unfold ImplDSP.run_nsdft, ImplDSP.run_sdft. apply nsdft_run_bin; auto.
   - apply repeat_length.
   - cbn [nsdft_result ImplDSP.nsdft_init sdft_result ImplDSP.sdft_init]. apply nth_repeat_any.
+Qed.
+
+(** the recurrence for a freshly constructed SlidingDFT, in terms of the input sequence only *)
+Lemma sdft_recurrence_lemma N coeff rho xs n : 0 < N -> n < length xs ->
+  nth n (run_sdft N coeff rho xs) cx0 =
+  cx_mul (cx_add (match n with O => cx0 | S m => cx_mul (nth m (run_sdft N coeff rho xs) cx0) (cx_of_real rho) end)
+                 (cx_sub (cx_of_real (nth n xs r0)) (cx_of_real (if N <=? n then nth (n - N) xs r0 else r0)))) coeff.
+Proof.
+  intros HN Hn. unfold ImplDSP.run_sdft.
+  rewrite (sdft_run_recurrence N coeff rho xs [] (sdft_init N) (rb_inv_init R r0 N HN) n Hn).
+  cbn [app sdft_result ImplDSP.sdft_init]. unfold cago, LemmasDSP_Sum.ago.
+  rewrite firstn_length_le by lia.
+  destruct (Nat.ltb_spec (N - 1) n), (Nat.leb_spec N n); try lia; [|reflexivity].
+  rewrite nth_firstn_lt by lia. replace (n - 1 - (N - 1)) with (n - N) by lia. reflexivity.
 Qed.
 
 Lemma run_sdft_length N coeff rho xs : length (run_sdft N coeff rho xs) = length xs.
